@@ -227,6 +227,7 @@ func (e *Explorer) runPath(m *Machine, it workItem) {
 	m.pcLog = nil
 	m.misaligned = nil
 	m.poolGets, m.zeroReads = 0, 0
+	m.poolCap = -1
 	m.skipPhi, m.inArm = false, false
 	m.Labels = map[string]*labelStat{}
 	m.FuncsSeen = map[string]int{}
